@@ -31,6 +31,7 @@ func catalogue(method string) []mutation {
 	add("truncate", "5", "20", "40")
 	add("add-header", "X-Big="+strings.Repeat("v", 3000), "CSeq=5", "Content-Length=999999", "Content-Length=-1", "Content-Length=abc")
 	add("header", "Session=", "Session=;timeout=5", "Session=abc;timeout=0", "Session=abc;timeout=1", "Session=abc;timeout=99999999999999999999", "Session=other", "Session="+strings.Repeat("s", 3000))
+	add("chatter", "stale-response", "server-request", "frames")
 	add("redirect-loop")
 	add("redirect-to", "rtsp://{addr}/other", "rtsp://127.0.0.1:1/x", "not a url", "rtsp://", "rtsps://{addr}/x", "rtsp://[::1/x", "http://{addr}/x", "")
 	add("auth-loop", `Basic realm="x"`, `Digest realm="x", nonce="1"`, `Digest realm="x"`, "garbage", "")
